@@ -149,7 +149,7 @@ open Py Inline
 mutual
 /-- an `AtomicString` text (which the tree walk does not run through the patterns again) contains no placeholder -/
 def atomOk (L : Char → Bool) : Node → Bool
-  | ⟨_, _, text, ta, children, _, _⟩ => (!ta || ok L 0 (text.getD [])) && kidsAtomOk L children
+  | ⟨_, attrs, text, ta, children, _, _⟩ => (!ta || ok L 0 (text.getD [])) && attrs.isEmpty && kidsAtomOk L children
 def kidsAtomOk (L : Char → Bool) : List Node → Bool
   | [] => true
   | c :: r => atomOk L c && kidsAtomOk L r
@@ -162,17 +162,18 @@ def topClean (L : Char → Bool) (n : Node) : Bool := ok L 0 (n.text.getD []) &&
 def GoodKids (L : Char → Bool) (ns : List Node) : Prop := ∀ r ∈ ns, topClean L r = true ∧ atomOk L r = true
 
 theorem atomOk_iff {L : Char → Bool} {n : Node} :
-    atomOk L n = true ↔ (n.textAtomic = true → ok L 0 (n.text.getD []) = true) ∧ kidsAtomOk L n.children = true := by
+    atomOk L n = true ↔ (n.textAtomic = true → ok L 0 (n.text.getD []) = true) ∧ n.attrs = [] ∧
+      kidsAtomOk L n.children = true := by
   cases n
-  simp only [atomOk, Bool.and_eq_true, Bool.or_eq_true, Bool.not_eq_true']
+  simp only [atomOk, Bool.and_eq_true, Bool.or_eq_true, Bool.not_eq_true', List.isEmpty_iff, and_assoc]
   constructor
-  · rintro ⟨h1, h2⟩
-    refine ⟨fun h => ?_, h2⟩
+  · rintro ⟨h1, h2, h3⟩
+    refine ⟨fun h => ?_, h2, h3⟩
     rcases h1 with h1 | h1
     · rw [h] at h1; cases h1
     · exact h1
-  · rintro ⟨h1, h2⟩
-    refine ⟨?_, h2⟩
+  · rintro ⟨h1, h2, h3⟩
+    refine ⟨?_, h2, h3⟩
     rename_i ta _ _ _
     cases ta
     · exact Or.inl rfl
@@ -210,7 +211,7 @@ theorem atomOk_of_nonAtomic {L : Char → Bool} : (n : Node) → nonAtomic n = t
   | ⟨_, _, text, ta, children, _, _⟩, h => by
     simp only [nonAtomic, Bool.and_eq_true, Bool.not_eq_true'] at h
     simp only [atomOk, Bool.and_eq_true, Bool.or_eq_true, Bool.not_eq_true']
-    exact ⟨Or.inl h.1, kidsAtomOk_of_nonAtomic children h.2⟩
+    exact ⟨⟨Or.inl h.1.1, h.1.2⟩, kidsAtomOk_of_nonAtomic children h.2⟩
 theorem kidsAtomOk_of_nonAtomic {L : Char → Bool} : (ns : List Node) → kidsNonAtomic ns = true → kidsAtomOk L ns = true
   | [], _ => rfl
   | c :: r, h => by
@@ -227,10 +228,11 @@ def field (p : Node) (isText : Bool) : Str := if isText then p.text.getD [] else
 /-- `p'` is `p` with only that field changed -/
 structure SameBut (isText : Bool) (p p' : Node) : Prop where
   kids : p'.children = p.children
+  attrs : p'.attrs = p.attrs
   tail : isText = true → p'.tail = p.tail
   text : isText = false → p'.text = p.text
 
-theorem SameBut.refl (isText : Bool) (p : Node) : SameBut isText p p := ⟨rfl, fun _ => rfl, fun _ => rfl⟩
+theorem SameBut.refl (isText : Bool) (p : Node) : SameBut isText p p := ⟨rfl, rfl, fun _ => rfl, fun _ => rfl⟩
 
 theorem getD_of_not_truthy {t : Option Str} (h : Node.truthy t = false) : t.getD [] = [] := by
   cases t with
@@ -296,7 +298,7 @@ theorem linkText_spec {L : Char → Bool} {n : Nat} {tbl : List Str} {isText : B
         simp only [Bool.not_false, if_true]
         have hfield : field parent false = parent.tail.getD [] := rfl
         split
-        · refine ⟨⟨hinv.same.kids, fun h => (by cases h), fun _ => hinv.same.text rfl⟩, rfl, ?_, ?_,
+        · refine ⟨⟨hinv.same.kids, hinv.same.attrs, fun h => (by cases h), fun _ => hinv.same.text rfl⟩, rfl, ?_, ?_,
             fun r hr => (by cases hr), ?_⟩
           · simp only [field, Bool.false_eq_true, if_false, Option.getD_some]
             exact ok_append (hfield ▸ hinv.fok) hok
@@ -307,7 +309,7 @@ theorem linkText_spec {L : Char → Bool} {n : Nat} {tbl : List Str} {isText : B
             rw [flatT_append_ok tbl (hfield ▸ hinv.fok), hfl, ← hA]; rfl
         · rename_i ht
           have ht' : parent.tail.getD [] = [] := getD_of_not_truthy (by simpa using ht)
-          refine ⟨⟨hinv.same.kids, fun h => (by cases h), fun _ => hinv.same.text rfl⟩, rfl, ?_, ?_,
+          refine ⟨⟨hinv.same.kids, hinv.same.attrs, fun h => (by cases h), fun _ => hinv.same.text rfl⟩, rfl, ?_, ?_,
             fun r hr => (by cases hr), ?_⟩
           · simp only [field, Bool.false_eq_true, if_false, Option.getD_some]; exact hok
           · simp only [field, Bool.false_eq_true, if_false, Option.getD_some]; exact hok0
@@ -318,7 +320,7 @@ theorem linkText_spec {L : Char → Bool} {n : Nat} {tbl : List Str} {isText : B
         simp only [Bool.not_true, Bool.false_eq_true, if_false]
         have hfield : field parent true = parent.text.getD [] := rfl
         split
-        · refine ⟨⟨hinv.same.kids, fun _ => hinv.same.tail rfl, fun h => (by cases h)⟩, rfl, ?_, ?_,
+        · refine ⟨⟨hinv.same.kids, hinv.same.attrs, fun _ => hinv.same.tail rfl, fun h => (by cases h)⟩, rfl, ?_, ?_,
             fun r hr => (by cases hr), ?_⟩
           · simp only [field, if_true, Option.getD_some]
             exact ok_append (hfield ▸ hinv.fok) hok
@@ -328,7 +330,7 @@ theorem linkText_spec {L : Char → Bool} {n : Nat} {tbl : List Str} {isText : B
             rw [flatT_append_ok tbl (hfield ▸ hinv.fok), hfl, ← hA]; rfl
         · rename_i ht
           have ht' : parent.text.getD [] = [] := getD_of_not_truthy (by simpa using ht)
-          refine ⟨⟨hinv.same.kids, fun _ => hinv.same.tail rfl, fun h => (by cases h)⟩, rfl, ?_, ?_,
+          refine ⟨⟨hinv.same.kids, hinv.same.attrs, fun _ => hinv.same.tail rfl, fun h => (by cases h)⟩, rfl, ?_, ?_,
             fun r hr => (by cases hr), ?_⟩
           · simp only [field, if_true, Option.getD_some]; exact hok
           · simp only [field, if_true, Option.getD_some]; exact hok0
